@@ -35,6 +35,9 @@ FINDINGS = {
     "C06-arekeysexist-missing-swamp-error": "AreKeysExist on a missing swamp answers FailedPrecondition (documented: every key false)",
     "C06-count-missing-swamp-error": "Count on a missing swamp answers FailedPrecondition (compared with NotFound) instead of IsExist=false",
     "C06-set-error-entry-duplicated": "a swamp rejected by Set gets two response entries (the error entry and an empty one)",
+    "C06-nan-condition-passes": ("IncrementFloat32/64 evaluate an ordering condition through its complement (`if cur <= ref { fail }` for "
+                                 "'greater than'): with a NaN on either side no complement holds, so >, >=, <, <= all count as satisfied "
+                                 "and the increment is applied (== and != behave as stated)"),
 }
 
 
@@ -51,11 +54,11 @@ def run(ctx):
         ctx.violation("harness does not build against the repository", {"correspondence": "C06", "log": getattr(ctx, "hx_log", "")[-2000:]},
                       tag="build", found_input=False)
     K.decide_standard(ctx, corrs, FINDINGS)
-    K.report_mismatch(ctx, KV.spec_violated_factory(known))
+    K.report_mismatch(ctx, KV.spec_violated_factory(known, ctx))
     c = corrs[0][2] if corrs else K.Corr()
-    checked, devs = (0, [])
-    if corrs and not c.err and not c.mismatch:
-        checked, devs = KV.run_oracle(ctx, c, "C06", known)
+    checked, devs, ostats = (0, [], {})
+    if corrs and not c.err:
+        checked, devs, ostats = KV.run_oracle(ctx, c, "C06", known)
     if ctx.thorough:
         ok, out = K.leanchecker(ctx, ["Hv.Props.C06", "Hv.Data.KVLemmas6", "Hv.Data.KV"])
         ctx.cov["leanchecker"] = "ok" if ok else out[-500:]
@@ -81,7 +84,7 @@ def run(ctx):
         extra_cov={"correspondence": {"domain": "C06", "cases": len(c.cases), "op_lines": len(c.ops),
                                       "mismatching_lines": len(c.mismatch), "op_histogram": c.op_hist,
                                       "reply_histogram": c.reply_hist, "lines_flagged_by_model": flagged},
-                   "oracle": {"lines_checked": checked, "deviations": len(devs)}},
+                   "oracle": {"lines_evaluated": checked, "lines_not_enough_known": ostats.get("unknown", 0), "lines_total": ostats.get("lines", 0), "deviations": len(devs)}},
         trusted=["Lean 4.33.0 kernel", "axioms: propext, Classical.choice, Quot.sound", "extract/c06.go", "harness/c06.go",
                  "IEEE float arithmetic (parameter of the theorems)"],
     )
